@@ -233,6 +233,15 @@ def run_history(sc, want_idempotence=True, faults=None, audits=True):
                     usz = 100
                 u = dict(u, watermark=max(0, usz + delta))
                 counters['watermark_at_size%+d' % delta] = counters.get('watermark_at_size%+d' % delta, 0) + 1
+            # MANIFEST references that are already stale before the operation starts
+            stale_before = set()
+            from .model import entry_matches as _em
+            for bmp, bents in before.items():
+                for be in (bents or []):
+                    if be['tag'] == 'MANIFEST':
+                        bfull = os.path.normpath(pjoin(os.path.dirname(bmp), be['path']))
+                        if _em(probe(os.path.join(w.root, bfull)), be) is not None:
+                            stale_before.add(bfull)
             snap0 = w.snapshot()
             valid_before = set(before)
             _m = Model(w.root, top)
@@ -343,9 +352,18 @@ def run_history(sc, want_idempotence=True, faults=None, audits=True):
             eh = effective_hashes(u)
             if u.get('last_mtime') is not None or u.get('incremental'):
                 eh = None
-            a = audit(w.root, top, scope, eh, prior_in_use=set(before))
-            for code, p, detail in a.problems[:4]:
-                violations.append(viol('audit.' + code, '%s: %s %r %s' % (what, code, p, detail), sig=code))
+            wr_now = set(e[2] for e in seam.write_events if e[0] >= opi - 2 and e[1] == 'open.w')
+            a = audit(w.root, top, scope, eh, prior_in_use=set(before), written=wr_now)
+            nprob = 0
+            for code, p, detail in a.problems:
+                if scope and code == 'manifest-entry-stale' and p in stale_before and p not in wr_now:
+                    # a sub-directory update does not answer for references outside its scope that were
+                    # stale before it started and that it did not rewrite
+                    zones['subdir-update:stale-reference-outside-scope'] = zones.get('subdir-update:stale-reference-outside-scope', 0) + 1
+                    continue
+                nprob += 1
+                if nprob <= 4:
+                    violations.append(viol('audit.' + code, '%s: %s %r %s' % (what, code, p, detail), sig=code))
             counters['audited_updates'] = counters.get('audited_updates', 0) + 1
             mv = Model(w.root, top).verdict(scope)
             with seam:
@@ -358,6 +376,8 @@ def run_history(sc, want_idempotence=True, faults=None, audits=True):
             elif not (rv[0] == 'ok' and rv[1] is True):
                 if mv.kind in ('DONTCARE',):
                     zones['verify-after-update:' + ','.join(sorted(set(mv.zones)))] = 1
+                elif scope and mv.kind == 'CHAIN' and all(c in stale_before and c not in wr_now for c in mv.chain):
+                    zones['subdir-update:stale-reference-outside-scope'] = zones.get('subdir-update:stale-reference-outside-scope', 0) + 1
                 else:
                     violations.append(viol('audit.verify-after-update', '%s: fresh verification %s (model: %s %r)' % (
                         what, describe(rv), mv.kind, dict(list(mv.offending.items())[:3]) or mv.chain), sig='%s:%s' % (rv[0], rv[1])))
